@@ -94,7 +94,7 @@ var fmtPools = map[string][]string{
 	"float":      {"1.5", "0.0", "1x5", ".5", "1.", "1.5.5", "-1.5", "1e5", "15", "1．5"},
 	"ip":         {"1.2.3.4", "255.255.255.255", "256.1.1.1", "01.2.3.4", "1.2.3", "::1", "fe80::1", "::ffff:1.2.3.4", "0:0:0:0:0:ffff:102:304", "1.2.3.4.5", "fe80::1%eth0", "::g"},
 	"unique":     {"1,2,3", "1,2,2", "a,b,a", "a", "a,,", ",", "a,A"},
-	"json":       {`{"a":1}`, `[1,2]`, `[1,2`, `null`, `"x"`, `{a:1}`, `1`, ``, ` {} `, `{"a":"é"}`},
+	"json":       {"{'a':1}", "{\"a\":\"\x00\n\r\t\x1a\\\"}", "[" + strings.Repeat("1,", 200) + "1", "[" + strings.Repeat("1,", 200) + "1]", `{"a":1}`, `[1,2]`, `[1,2`, `null`, `"x"`, `{a:1}`, `1`, ``, ` {} `, `{"a":"é"}`},
 	"prefix":     {"abc", "abd", "ab", "xabc", "abcabc", "中文", "中"},
 	"path":       {"/tmp", "/etc/hostname", "/nonexistent/x", "/etc", ".", "", "/dev/null"},
 	"re":         {"123", "abc", "a1", "it's", "a,b", "", "12345"},
